@@ -651,9 +651,19 @@ def validate_usm_message(message: PlainMessage) -> None:
         if varbind.oid == ObjectIdentifier("1.3.6.1.6.3.15.1.1.2.0"):
             # Raised as a distinct type. The caller can re-synchronise with
             # the remote engine and try again.
+            try:
+                counter = varbind.value.pythonize()
+            except ErrorResponse as exc:
+                # The value is not a counter but a (lazily decoded) PDU with
+                # an error-status. Same reasoning as above: it must not
+                # surface as the error-response to our request.
+                raise SnmpError(
+                    "Unexpected report from remote device "
+                    f"(value with error-status): {exc}"
+                ) from exc
             raise NotInTimeWindow(
                 str(varbind.oid),
-                varbind.value.pythonize(),
+                counter,
                 USMSecurityParameters.decode(
                     message.security_parameters
                 ).authoritative_engine_id.hex(),
